@@ -757,3 +757,10 @@ PROPS["C01"]["also_drivers"] = PROPS["C01"]["also_drivers"] + ["C12"]
 # C13 delegates the bytes of socket addresses and the (pointer, length) pairs of buffers to C16 and
 # C14: their drivers run with C13's check too.
 PROPS["C13"]["also_drivers"] = PROPS["C13"]["also_drivers"] + ["C16", "C14"]
+# The OpState family also abstracts the submission queue as a FIFO of capacity `cap` that never
+# loses, duplicates or overwrites an accepted entry: that is C04's model and driver (seed C02-h).
+for _p in ("C01", "C02", "C03", "C06", "C09"):
+    PROPS[_p]["also_drivers"] = PROPS[_p].get("also_drivers", []) + ["C04"]
+# C08: reading again into a ReadBuf that already owns a (full or partly filled) pool buffer is
+# C15's driver, on the real kernel (seed C08-h).
+PROPS["C08"]["also_drivers"] = ["C15"]
